@@ -389,3 +389,20 @@ Definition ChainValid (c : cfg) (st : mach) : Prop :=
   ((g_height m < c_initial c)%N /\ g_state m = None) \/
   (exists r0 s, In r0 (g_inits st) /\ chain c (g_block m) (g_built st) (g_execs st) r0 (g_height m) s /\
                 g_state m = Some s /\ (c_initial c <= g_height m)%N).
+
+(* ---- what the node EXPOSES at a height ---------------------------------------------------------- *)
+(* A reader of the node's store — an RPC client (GetBlock), the DA submitter, the header/data exchange, the
+   next production step, a restarted process — gets at height n the signed header and data of
+   GetBlockData(n) / GetHeader(n) and the signature record of GetSignature(n): the record written by the
+   LATEST SaveBlockData for n (pkg/store/store.go:117-188 read the datastore on every call; the store
+   object keeps nothing between calls).  Reads do not change the machine. *)
+Definition served (st : mach) (n : N) : option blk := g_block (img_of st) n.
+
+(* the served record is a block signed by the configured signer, as a verifier sees it: header.Signature
+   verifies under the signer's public key over this very header, the signature record equals it, the
+   signer named in the header is the configured one, and SignedHeader.ValidateBasic accepts it *)
+Definition served_signed (c : cfg) (b : blk) : Prop :=
+  verify_header (Pub (c_key c)) (hdr_of b) (sh_sig (b_sh b)) = true /\
+  b_sig b = sh_sig (b_sh b) /\
+  sh_signer (b_sh b) = mk_signer c /\
+  validate_basic (b_sh b) = true.
